@@ -95,9 +95,10 @@ def run(chk, tier, seed):
     def one(arg):
         k, progs = arg
         e = enc(progs)
-        par = C.run_harness(binary, ["p conc par %s" % e], timeout=60).get("p", "MISSING")
-        seq = C.run_harness(binary, ["s conc seq %s" % e], timeout=60).get("s", "MISSING")
-        hk = C.run_harness(hook_bin, ["h conc par %s" % e], timeout=60).get("h", "MISSING") if hook_bin else ""
+        # (address-space limit raised: every thread reserves its stack)
+        par = C.run_harness(binary, ["p conc par %s" % e], timeout=60, mem_gb=16).get("p", "MISSING")
+        seq = C.run_harness(binary, ["s conc seq %s" % e], timeout=60, mem_gb=16).get("s", "MISSING")
+        hk = C.run_harness(hook_bin, ["h conc par %s" % e], timeout=60, mem_gb=16).get("h", "MISSING") if hook_bin else ""
         return k, par, seq, hk
 
     # in batches: once a few runs have hung there is no point in waiting for the watchdog another hundred times
@@ -156,11 +157,11 @@ def run(chk, tier, seed):
     # shared connection
     shared = []
     hung = sum(1 for r in results if r[1].startswith("HANG") or r[3].startswith("HANG")) >= 3
-    for n, m in ([] if hung else [(2, 50), (8, 200), (16, 100)] if tier == "quick" else [(2, 50), (4, 500), (8, 1000), (16, 500), (32, 200), (64, 50)]):
+    for n, m in ([] if hung else [(2, 50), (8, 200), (16, 100)] if tier == "quick" else [(2, 50), (4, 500), (8, 1000), (16, 500), (32, 200), (48, 50)]):
         for b, nm in ((binary, "plain"), (hook_bin, "hooked")):
             if not b:
                 continue
-            o = C.run_harness(b, ["c conc_shared %d %d %d" % (n, m, seed)], timeout=200).get("c", "MISSING")
+            o = C.run_harness(b, ["c conc_shared %d %d %d" % (n, m, seed)], timeout=200, mem_gb=16).get("c", "MISSING")
             body, _, log = o.partition(" LOCKLOG ")
             shared.append((n, m, nm, body[:60]))
             if not body.startswith("OK "):
